@@ -578,7 +578,10 @@ func (cs *ContractSet) LoadFile(file string) error {
 			case "nopaniccheck":
 				cur.NoPanicCheck = true
 			case "safety":
+				// safety [PROPS]: panic-freedom obligations (only while one of
+				// PROPS is checked, when given)
 				cur.Safety = true
+				cur.SafetyProps = append(cur.SafetyProps, strings.Fields(rest)...)
 			case "allowpanic":
 				// allowpanic "text" [when EXPR]
 				ap := AllowPanic{}
